@@ -115,9 +115,10 @@ MainReturn ==
   /\ mpc' = "done" /\ ctxDone' = TRUE
   /\ UNCHANGED <<cfgvars, created, pc, idx, blocked, stack, checked, sem, holding, out, reports, midx, mres, cancels>>
 
-(* the caller cancels its context at an arbitrary moment *)
+(* the caller cancels its context at an arbitrary moment (possibly after Compile has returned,
+   when it no longer changes anything) *)
 ExternalCancel ==
-  /\ cancels > 0 /\ ~ctxDone /\ mpc # "done"
+  /\ cancels > 0
   /\ ctxDone' = TRUE /\ cancels' = cancels - 1
   /\ UNCHANGED <<cfgvars, created, pc, idx, blocked, stack, checked, sem, holding, out, reports, mpc, midx, mres>>
 
@@ -319,6 +320,16 @@ PanicSurfaces ==
   (Returned /\ cancels = MaxCancels /\ ~HasCycle
      /\ (\E a \in Reachable : plan[a] = "panic") /\ (\A a \in Reachable : plan[a] \in {"ok", "panic"}))
   => mres = "panic"
+
+(* The outcomes the statements allow for a configuration (oracle for the replay into the real
+   compiler).  FaultClass maps a resolver behaviour to the error class the caller sees.        *)
+FaultClass(p) == CASE p = "err" -> "resolve" [] p = "panic" -> "panic" [] p = "short" -> "read" [] OTHER -> "ok"
+AllowedNoCancel ==
+  LET faults == {FaultClass(plan[a]) : a \in {b \in Reachable : plan[b] # "ok"}}
+  IN IF HasCycle THEN {"cycle"} \cup faults
+     ELSE IF faults # {} THEN faults ELSE {"ok"}
+Allowed(cancelled) == IF cancelled THEN AllowedNoCancel \cup {"ctx"} ELSE AllowedNoCancel
+AllowedOutcome == Returned => mres \in Allowed(cancels < MaxCancels)
 
 AllTasksDone == \A f \in created : pc[f] = "done"
 (* C06: a compile call returns;  C07: and no task is left running afterwards *)
